@@ -296,6 +296,52 @@ func runC02(env *Env) {
 		}(), "W"), true)
 		run(k, []string{"w", "a0"}, true) // incomplete: no cease
 	}
+	// a fork whose continuing branch ends at once while the forked token is still being set up (slow id
+	// generator): the instance must not be reported complete before the forked branch's task is answered
+	for rep2 := 0; rep2 < 3 && !rep.Saturated(); rep2++ {
+		cs := fmt.Sprintf("fork {end at once | task}, slow flow creation, repetition %d", rep2)
+		env.Current(cs)
+		p := &Prog{}
+		p.Node("start", "start")
+		p.Node("par", "F")
+		p.Node("end", "e1")
+		p.Node("task", "A")
+		p.Node("end", "e2")
+		p.Flow("start", "F", "")
+		p.Flow("F", "e1", "")
+		p.Flow("F", "A", "")
+		p.Flow("A", "e2", "")
+		defs, err := ParseDefs(p.XML(""))
+		must(err)
+		in, err := StartInst(defs, InstOpt{Opts: []bpmn.Option{bpmn.WithIdGenerator(slowGen{4 * time.Millisecond})}})
+		must(err)
+		rep.Evaluations++
+		rep.Nontrivial++
+		rep.Count("fork_end_at_once")
+		early := c02Wait(in, 60*time.Millisecond)
+		if early {
+			rep.Violate("C02-early-completion", cs, "WaitUntilComplete returned true while the forked branch's task had not even been requested; log: "+logString(in.Log()))
+		}
+		if !in.Answer("A", tmoStep) {
+			rep.Violate("C02-no-completion", cs, "the forked branch's task was never requested; log: "+logString(in.Log()))
+		} else if !c02Wait(in, tmoStep) {
+			rep.Violate("C02-no-completion", cs, "wait returned false although every token was gone; log: "+logString(in.Log()))
+		}
+		time.Sleep(settle)
+		log := in.Log()
+		ceases, after := 0, 0
+		for _, e := range log {
+			if e.K == "cease" {
+				ceases++
+			} else if ceases > 0 && (e.K == "flow" || e.K == "task" || e.K == "visit") {
+				after++
+			}
+		}
+		if ceases != 1 || after > 0 {
+			rep.Violate("C02-cease", cs, fmt.Sprintf("%d cease-flow traces (expected 1), %d flow/visit/task traces after the first; log: %s", ceases, after, logString(log)))
+		}
+		in.Close()
+	}
 	// every start event started by its own goroutine through StartWith, with the forced window
 	concStart = true
 	for k := 2; k <= 3; k++ {
